@@ -725,10 +725,21 @@ func genProgram(r *gen.R, maxNodes int) *program {
 	}
 	// sometimes an initializer that is also a graph input (default value), overridden or not
 	if r.Chance(0.3) {
-		def := uniformT(r, ref.F32, []int{r.Range(1, 3), r.Range(1, 4)}, 2)
+		def := uniformT(r, ref.F32, r.PickShape([]int{r.Range(1, 3), r.Range(1, 4)}, []int{r.Range(1, 3), r.Range(1, 4)}, []int{r.Range(1, 4)}, []int{}), 2)
 		name := p.fresh("dflt")
 		p.Inits = append(p.Inits, mon.GInit{Name: name, T: def, Raw: r.Bool()})
-		p.Inputs = append(p.Inputs, mon.GInput{Name: name, DT: ref.F32, Dims: mon.FixedDims(def.Shape)})
+		decl := mon.GInput{Name: name, DT: ref.F32, Dims: mon.FixedDims(def.Shape)}
+		switch r.Intn(6) { // how the value-info of the shadowed input is written
+		case 0:
+			decl.NoShape = true
+		case 1:
+			decl.NoType = true
+		case 2:
+			for i := range decl.Dims {
+				decl.Dims[i] = mon.Dim{Param: "d" + fmt.Sprint(i)}
+			}
+		}
+		p.Inputs = append(p.Inputs, decl)
 		p.Shadow[name] = true
 		p.Values[name] = def
 		if r.Bool() { // caller overrides the default
